@@ -9,6 +9,7 @@ UNIT_MODES = {
     'powlog': ['dbg', 'rel'],
     'div': ['dbg', 'rel'],
     'numtraits_fwd': ['dbg', 'rel'],
+    'numtraits_int': ['dbg', 'rel'],
 }
 
 # property -> verus units owned by the property (dependencies are added automatically) and the
